@@ -312,14 +312,14 @@ impl Property for C09 {
     }
     fn plan(&self, tier: Tier) -> Vec<Segment> {
         vec![
-            Segment::random("lists", tier.pick(40_000, 500_000), &[0], 8, 1500),
-            Segment::random("big-lists", tier.pick(4_000, 60_000), &[1], 16, 6000),
+            Segment::random("lists", tier.pick(80_000, 2_000_000), &[0], 8, 1500),
+            Segment::random("big-lists", tier.pick(8_000, 240_000), &[1], 16, 6000),
             // rear lengths crossing the variable-byte boundaries 16512 and 2113664 (3- and 4-byte codes)
             Segment::enumerated("long-rear-lengths", tier.pick(16, 120), &[2]),
         ]
     }
     fn rule(&self) -> &'static str {
-        "case = (block size k in {1,2,3,4,8,16,n-1,n,n+1,..20}, n strings without NUL built as prefix families over 6 alphabets (a/b, ASCII, 2/3/4-byte UTF-8, low code points) with lengths around 127..130 (thorough: a family with >=16512-byte suffixes), order in {sorted, reversed, sorted with duplicates, unsorted}, push or extend) decoded from bytes; oracle = the Vec<String>; observed len, get, get_in_place for every i, iter/into_iter/into_lender/lend, iter_from/lend_from/into_iter_from for every start 0..=n (sampled above 80) with len/size_hint before every next, index_of/contains for stored strings, prefixes, extensions, neighbours and strings between neighbours. Non-trivial: n>=2 with a non-empty shared prefix between two consecutive strings, or labels n=0, n%k=0, rear>=128, dups, unsorted, multibyte; distinct = distinct hash of the decoded case."
+        "case = (block size k in {1,2,3,4,8,16,n-1,n,n+1,..20}, n strings without NUL built as prefix families over 6 alphabets (a/b, ASCII, 2/3/4-byte UTF-8, low code points) with lengths around 127..130 (thorough: a family with >=16512-byte suffixes), order in {sorted, reversed, sorted with duplicates, unsorted}, push or extend) decoded from bytes; oracle = the Vec<String>; observed len, get, get_in_place for every i, iter/into_iter/into_lender/lend, iter_from/lend_from/into_iter_from for every start 0..=n (sampled above 80) with len/size_hint before every next, index_of/contains for stored strings, prefixes, extensions, neighbours and strings between neighbours. Plus an enumerated segment of lists whose rear lengths sit at and inside the 3- and 4-byte variable-byte regimes (16512, 2113664 +-2, up to 6 MB strings). Non-trivial: n>=2 with a non-empty shared prefix between two consecutive strings, or labels n=0, n%k=0, rear>=128, dups, unsorted, multibyte; distinct = distinct hash of the decoded case."
     }
     fn run(&self, data: &[u8], cx: &mut Ctx) -> R {
         let (mode, rest) = data.split_first().unwrap_or((&0, &[]));
